@@ -27,6 +27,15 @@ func hostileSession(t *testing.T, root string, allow bool, reqs []Req) (why stri
 		leaf := newVFs(afero.NewOsFs(), "leaf")
 		leaf.record = false
 		s := startSrv(SrvOpts{Root: root, AllowWrite: allow, LeafWrap: func(afero.Fs) afero.Fs { return leaf }})
+		// a bystander that opened a file before the hostile client arrived and goes on reading afterwards
+		by := s.Dial(nil)
+		bm := newModel(root, false)
+		for _, rq := range []Req{mkReq(opOpenFile, "/plain/f65537.bin"), rdReq(10, 1000)} {
+			resp, cl := s.Exchange(by, rq.Encode())
+			if w, _ := bm.Check(rq, resp, cl); w != "" && why == "" {
+				why = "bystander connection before the hostile session: " + w
+			}
+		}
 		c := s.Dial(nil)
 		synctest.Wait()
 		for _, rq := range reqs {
@@ -34,6 +43,12 @@ func hostileSession(t *testing.T, root string, allow bool, reqs []Req) (why stri
 			steps = append(steps, StepObs{Req: rq.String(), Resp: hexHead(resp), Closed: closed})
 			if closed {
 				break
+			}
+		}
+		for _, rq := range []Req{rdReq(65000, 1000), rdcReq(0, 65537), mkReq(opStatFile, "/plain")} {
+			resp, cl := s.Exchange(by, rq.Encode())
+			if w, _ := bm.Check(rq, resp, cl); w != "" && why == "" {
+				why = "a bystander connection (file opened before the hostile session) was disturbed: " + w
 			}
 		}
 		p := s.Dial(nil)
